@@ -28,8 +28,8 @@ def make(name, sop_class='1.2.840.10008.1.1', sop_inst='1.2.3.4', msg_id=1, stat
         'NumberOfFailedSuboperations': counters[2], 'NumberOfWarningSuboperations': counters[3],
     }
     for kw in cls.command_fields:
-        if kw == 'CommandGroupLength' or kw in unset:
-            continue
+        if kw == 'CommandGroupLength' or kw in unset or kw not in vals:
+            continue        # (elements the constructor itself manages are left alone)
         setattr(cs, kw, vals[kw])
     if data_set is not None:
         msg.data_set = data_set
